@@ -583,4 +583,4 @@ var haltProp = pbt.Prop[Plan]{ID: "C13", Name: "halt", Gen: genPlan, Run: runPla
 
 func TestProp_halt(t *testing.T) { haltProp.Check(t) }
 
-func TestReplay(t *testing.T) { pbt.Replay(t, haltProp) }
+func TestReplay(t *testing.T) { pbt.Replay(t, haltProp, sqlHaltProp) }
